@@ -181,6 +181,61 @@ fn writers_for(input: &[u8], with_empty_writes: bool, with_flushes: bool) -> (u6
             }
         }
     }
+    // the mapped writer over an inner writer that fails once (its k-th write call, k = 1..3, taking
+    // nothing) and accepts everything afterwards: whatever is lost, the mapping function is only
+    // ever handed ONE segment (at most one marker, at the end) - never two glued together
+    if n <= 5 && !with_flushes && !with_empty_writes {
+        thread_local! {
+            static ARGS: std::cell::RefCell<Vec<Vec<u8>>> = const { std::cell::RefCell::new(Vec::new()) };
+        }
+        fn recording(v: Vec<u8>) -> Vec<u8> {
+            ARGS.with(|a| a.borrow_mut().push(v.clone()));
+            v
+        }
+        struct FailOnce {
+            calls: usize,
+            at: usize,
+        }
+        impl Write for FailOnce {
+            fn write(&mut self, buf: &[u8]) -> std::io::Result<usize> {
+                self.calls += 1;
+                if self.calls == self.at {
+                    return Err(std::io::Error::other("inner writer fails once"));
+                }
+                Ok(buf.len())
+            }
+            fn flush(&mut self) -> std::io::Result<()> {
+                Ok(())
+            }
+        }
+        for mask in 0..cuts {
+            for at in 1..=3 {
+                for finish in 0..2 {
+                    ARGS.with(|a| a.borrow_mut().clear());
+                    {
+                        let mut w = mapped(FailOnce { calls: 0, at }, M, recording);
+                        let mut start = 0;
+                        for i in 0..n {
+                            if i + 1 == n || mask & (1 << i) != 0 {
+                                let _ = w.write_all(&input[start..=i]);
+                                calls += 1;
+                                start = i + 1;
+                            }
+                        }
+                        if finish == 0 {
+                            drop(w);
+                        } else {
+                            let _ = w.unwrap();
+                        }
+                    }
+                    let args = ARGS.with(|a| a.borrow().clone());
+                    if let Some(bad) = args.iter().find(|a| a.iter().filter(|b| **b == M).count() > 1 || (a.contains(&M) && a.last() != Some(&M))) {
+                        viols.push(("mapped:segments-glued-after-inner-error".to_string(), format!("MappedWrite input {:?} chunk mask {mask:b}, inner writer failing at its call {at}: the mapping function was handed {:?}, which is not a single segment", String::from_utf8_lossy(input), String::from_utf8_lossy(bad)), json!({"kind": "mapped", "input": input, "mask": mask, "fn": "recording", "finish": finish, "flushes": false})));
+                    }
+                }
+            }
+        }
+    }
     // tee: both targets get the full input for every chunking and every pair of target behaviours
     // (accepts everything, accepts at most 1 / 2 bytes per write call, line-buffered in front of
     // either); a failing target is reported. The marker stands for LF here (line-buffered targets).
@@ -1121,7 +1176,7 @@ fn main() {
     rep.cov("evaluations", schedules + wcalls);
     rep.cov("distinct_nontrivial", schedules + wstates);
     rep.cov("determinism_replays", 1);
-    rep.cov("rule", "writers: every string over {marker,a,b} up to the length bound x every chunking (plus empty writes for short strings) x 4 mapping functions x finish by drop/unwrap through the real MappedWrite, and TeeWrite incl. failing targets; both command entry points x 5x5 target behaviours (accept-all, <=1, <=7 bytes per call, LineWriter over either) x 3x3 stream sizes handed the targets directly; a target reporting one transient error (WouldBlock, Interrupted, TimedOut) at its 1st..3rd call on either stream x both entry points (success only with every byte delivered); pipe system: PipeModel explored exhaustively with stateright-style BFS over all scripts (PAR must be deadlock-free and lossless, SEQ variants must deadlock = negative control), then every maximal sequence of environment actions (token, grant out, grant err) of the model is driven through the real output_and_write_streams with a scripted child (4096-byte pipes) and gated sinks, waiting for exactly the events the model predicts");
+    rep.cov("rule", "writers: every string over {marker,a,b} up to the length bound x every chunking (plus empty writes for short strings) x 4 mapping functions x finish by drop/unwrap through the real MappedWrite (also over an inner writer that fails once: the mapping function never sees two segments glued together), and TeeWrite incl. failing targets; both command entry points x 5x5 target behaviours (accept-all, <=1, <=7 bytes per call, LineWriter over either) x 3x3 stream sizes handed the targets directly; a target reporting one transient error (WouldBlock, Interrupted, TimedOut) at its 1st..3rd call on either stream x both entry points (success only with every byte delivered); pipe system: PipeModel explored exhaustively with stateright-style BFS over all scripts (PAR must be deadlock-free and lossless, SEQ variants must deadlock = negative control), then every maximal sequence of environment actions (token, grant out, grant err) of the model is driven through the real output_and_write_streams with a scripted child (4096-byte pipes) and gated sinks, waiting for exactly the events the model predicts");
     rep.cov("bound", json!({"writer_string_len": if args.thorough() {8} else {7}, "model_script_len": mlen, "driven_script_len": slen, "write_sizes": [1, 2048, 4096], "pipe_capacity": CAP, "schedules_per_script_cap": per_script_cap}));
     rep.cov("exhaustive", capped == 0);
     if capped > 0 {
